@@ -5,6 +5,7 @@ package vfc03
 import (
 	"bufio"
 	"bytes"
+	"encoding/json"
 	"fmt"
 	"os"
 	"os/exec"
@@ -93,4 +94,27 @@ func Encode(descs []string) ([]GenOut, error) {
 		}
 	}
 	return outs, nil
+}
+
+// ReplayOps returns the op lines ("l1 …" / "l2 …", without index) of the replay
+// file named by VERIF_REPLAY (./check <ID> --replay FILE), if any.
+func ReplayOps() []string {
+	p := os.Getenv("VERIF_REPLAY")
+	if p == "" {
+		return nil
+	}
+	b, err := os.ReadFile(p)
+	if err != nil {
+		return nil
+	}
+	var d struct {
+		Replay map[string]interface{} `json:"replay"`
+	}
+	if json.Unmarshal(b, &d) != nil {
+		return nil
+	}
+	if op, ok := d.Replay["op"].(string); ok {
+		return []string{op}
+	}
+	return nil
 }
